@@ -1,18 +1,41 @@
 HOOK_COMMITS = []
-NOTES = ("Model-based verification with an explicit TLA+ specification (spec/). Properties not yet listed under checks "
-         "are still being built; until their check is registered they are listed under not_applicable with that reason.")
+NOTES = ("Model-based verification with an explicit TLA+ specification (spec/): TwigText/TwigValues/TwigSem/TwigSyntax are the "
+         "reference semantics and printer; MC_Cxx are the bounded models TLC checks and enumerates; Trace_Cxx validate recorded "
+         "behaviour of the implementation. Properties not yet listed under checks are still being built; until their check is "
+         "registered they are listed under not_applicable with that reason.")
+
+_S2C = ("TLC model-checks the bounded model (model-level invariants named in the module header) and emits every explored case with "
+        "the expectation computed by the TLA+ reference semantics; the Go harness replays each case against /repo's working tree "
+        "on a fresh engine and compares bytes, error identity and spy-call counts.")
+_NOTE = ("Trusted: TLC, the reference semantics in spec/TwigSem.tla, the Go harness (concatenates source pieces, builds context "
+         "values, compares). Bounded by the constants in the .cfg files; outside the fragment predicates nothing is claimed.")
+
+def _c(text, technique, ref):
+    return dict(level="model_checking", text=text + " " + _S2C, ref=ref, note=_NOTE, technique=technique)
 
 CHECKS = {
-    "C08": dict(
-        level="model_checking",
-        text="TLC enumerates every typed expression tree up to a bound, evaluates it with the reference semantics "
-             "(TwigSem.tla) and prints it with the table-driven printer (TwigSyntax.tla); every tree is rendered by the "
-             "real engine with minimal and full parentheses, three spacings and ten syntactic positions and compared "
-             "byte-for-byte and by spy-call counts with the model's result.",
-        ref="DESIGN.md section 6 C08",
-        note="Trusted: TLC, the reference semantics, the Go harness (concatenates pieces, compares). Bounded: trees up to "
-             "2 (quick) / 3 (thorough) binary operators over a fixed leaf set; integers within +-10^9.",
-        technique="TLA+ reference semantics + TLC case enumeration, spec-to-code replay"),
+    "C04": _c("Every admissible literal byte string around every tag kind, every short literal, comment and verbatim body.",
+              "TLA+ model + TLC enumeration of byte contexts, spec-to-code replay", "DESIGN.md 6/C04"),
+    "C06": _c("Position x route x policy enumeration; TLC checks Confined on the model; spies count invocations (forbidden spy count 0 whatever the outcome).",
+              "TLA+ sandbox derivation-tree model (Confined) + TLC enumeration, spec-to-code replay with spies", "DESIGN.md 6/C06"),
+    "C07": _c("Every short string over the HTML-special alphabet x 9 filter positions x escape/e; the engine's outputs are recorded and validated by the TLC trace spec Trace_C07 (ValidEscape).",
+              "TLC exhaustive generation + TLC trace validation of recorded outputs (ValidEscape)", "DESIGN.md 6/C07"),
+    "C08": _c("Every typed expression tree up to 2 (quick) / 3 (thorough) binary operators, minimal vs full parentheses, 3 spacings, 10 positions, short-circuit/conditional spy families.",
+              "TLA+ reference semantics + operator table + TLC case enumeration, spec-to-code replay", "DESIGN.md 6/C08"),
+    "C09": _c("if-chains over condition values of every type, loops over lists/strings/ranges with all 7 counters, nested loops, set programs.",
+              "TLA+ big-step Exec + TLC program enumeration, spec-to-code replay", "DESIGN.md 6/C09"),
+    "C10": _c("Extends chains up to 4 levels x per-level block definition kinds x 5 base layouts, dynamic parent.",
+              "TLA+ block-chain semantics + TLC enumeration, spec-to-code replay", "DESIGN.md 6/C10"),
+    "C11": _c("with/only/ignore missing x name forms x behaviours of the included template x placements; 2-run non-interference (include removed).",
+              "TLA+ Exec + NonInterference invariant + TLC enumeration, two real renders per case", "DESIGN.md 6/C11"),
+    "C12": _c("Arity x defaults x argument counts x body kinds x call sites, each in up to 5 call forms (FormsAgree checked on the model).",
+              "TLA+ BindParams/CallMacro + TLC enumeration, metamorphic replay over call forms", "DESIGN.md 6/C12"),
+    "C13": _c("Corpus covering every tag kind x dash sets x whitespace styles; dashed source vs hand-trimmed source, both rendered.",
+              "TLA+ piece-level dash/hand-trim model + TLC enumeration, metamorphic replay", "DESIGN.md 6/C13"),
+    "C14": _c("C13 corpus x pad positions x pad contents x lengths straddling 4096 bytes and up to 300 KB, three writers.",
+              "TLA+ symbolic padding model + TLC enumeration, metamorphic replay with Go-side pad expansion", "DESIGN.md 6/C14"),
+    "C17": _c("Corpus with a spy at every callback position; every single-fault placement, loader faults, unresolved names; 6 render variants.",
+              "TLA+ Exec with fault schedule (Surfaces) + TLC fault enumeration, spec-to-code replay", "DESIGN.md 6/C17"),
 }
 
 _ALL = ["C%02d" % i for i in range(1, 21)]
